@@ -2676,7 +2676,7 @@ class Processor:
             if isinstance(data, (CommentedMap, ryod)):
                 for i, k in [
                         (idx, key) for idx, key in enumerate(data.keys())
-                        if key is reference_node
+                        if key is reference_node and hasattr(key, "anchor")
                 ]:
                     data.insert(i, replacement_node, data.pop(k))
                 for k, val in data.non_merged_items():
@@ -2689,14 +2689,20 @@ class Processor:
                                 replacement_node)
             elif isinstance(data, (CommentedSeq, list)):
                 for idx, item in enumerate(data):
-                    if data is parent and item is reference_node:
-                        data[idx] = replacement_node
+                    if item is reference_node:
+                        if (hasattr(item, "anchor") or
+                                (data is parent and idx == parentref)):
+                            data[idx] = replacement_node
                     else:
                         recurse(item, parent, parentref, reference_node,
                                 replacement_node)
             elif isinstance(data, (CommentedSet, set)):
-                data.discard(reference_node)
-                data.add(replacement_node)
+                if ((data is parent and reference_node in data)
+                    or (hasattr(reference_node, "anchor")
+                        and any(ele is reference_node for ele in data))
+                ):
+                    data.discard(reference_node)
+                    data.add(replacement_node)
             elif isinstance(data, OrderedDict):
                 # Manual key (re)ordering is necessary and YMKs are not
                 # supported.
